@@ -429,6 +429,10 @@ def decode_p1_readout_content(
     content: bytes,
 ) -> dict[str, str | int | float | datetime]:
     """Decode P1 readout content into dictionary."""
+    if any(char < 0x20 and char not in (0x0D, 0x0A) for char in content):
+        # Data lines are printable characters, CR and LF. Anything else is not P1 readout data
+        # (e.g. a binary DLMS payload that happens to be 7-bit ASCII).
+        raise ValueError("Content is not printable characters.")
     parsed = parse_p1_readout_content(content)
     if not parsed:
         raise ValueError("Content cotains no readout data.")
